@@ -5,7 +5,9 @@
 (*           real = ptree2 abstraction of ctx.parse(concretise(Render(page))) *)
 (* Per case TLC computes TreeOf(page) and decides Equiv(real, TreeOf(page)).  *)
 (* A failing case is attributed to listed deviations when the as-is machine   *)
-(* (deviations switched on) reproduces the real tree.                         *)
+(* (deviations switched on) reproduces the real tree.  `strict` says whether   *)
+(* the page is inside the statement's quantifier (URL-safe attribute values): *)
+(* only then a failing case contradicts the statement, otherwise it is DRIFT. *)
 EXTENDS ParserStruct, Json, IOUtils
 
 TagsFromFile == JsonDeserialize(IOEnv.TAGS_FILE)
@@ -24,7 +26,7 @@ Next ==
          asis == MachineTree(a, Known)
          explained == Known # {} /\ Equiv(c.real, asis)
          devs == IF explained THEN {d \in Known : ~Equiv(MachineTree(a, {d}), exp)} ELSE {}
-     IN bad' = IF ok THEN bad ELSE Append(bad, [i |-> i, expected |-> exp, devs |-> devs])
+     IN bad' = IF ok THEN bad ELSE Append(bad, [i |-> i, expected |-> exp, devs |-> devs, strict |-> UrlSafePage(c.page)])
   /\ i' = i + 1
 Spec == Init /\ [][Next]_<<i, bad>>
 Verdict == (i = Len(Cases) + 1) => PrintT(<<"VERDICT", ToJson([consumed |-> i - 1, bad |-> bad])>>)
